@@ -44,7 +44,7 @@ LEVEL_NOTE = "Trusts the stdlib zipfile/tarfile readers (used to list archive me
 CLASSES = [
     "prefix_1_10_100", "int_vs_str_same_text", "hetero_keys", "nested_keys", "sep_in_value", "dotdot_in_value",
     "zip", "tar", "tar_compressed", "path_false", "path_format", "path_auto_sep", "path_callable",
-    "nonunique_must_raise", "leaf_node_must_raise", "schema_string", "import_collision",
+    "nonunique_must_raise", "target_holds_earlier_export", "leaf_node_must_raise", "schema_string", "import_collision",
     "import_nonunique_callable", "zero_jobs", "one_job", "import_into_self",
 ]
 ASSUMPTIONS = [
@@ -563,6 +563,20 @@ def run_roundtrip(case, ctx):
             ctx.skip("path spec could write to an absolute path outside the scratch root")
             return {"mismatches": [], "classes": [], "nontrivial": False}
 
+        # -- an earlier export already sits in the target directory (repeated / interrupted export): the source had
+        # one more file then. The export under test must refuse, or the round trip must still be exact.
+        preexport = bool(case.get("preexport")) and tkind == "dir" and bool(jobs)
+        if preexport:
+            extra = os.path.join(jobs[int(case.get("collide_idx", 0) or 0) % len(jobs)]["dir"], "scratch.tmp")
+            fsutil.write_file(extra, b"left over")
+            try:
+                signac.Project(os.path.join(R, "src")).export_to(target=target, path=path_arg)
+                cl.add("target_holds_earlier_export")
+            except Exception:
+                preexport = False
+                shutil.rmtree(target, ignore_errors=True)
+            os.remove(extra)
+
         S0 = fsutil.snapshot(R)
 
         # -- EXPORT ---------------------------------------------------------
@@ -617,13 +631,16 @@ def run_roundtrip(case, ctx):
         if own_leaf:
             cl.add("leaf_node_must_raise")
         if exp_exc is not None:
-            if tkind == "dir":
+            if preexport:
+                dt = fsutil.diff(fsutil.subtree(S0, target_rel), fsutil.subtree(S1, target_rel))
+                data = sorted(dt["added"] + dt["changed"] + dt["removed"])
+            elif tkind == "dir":
                 data = sorted(p for p in S1 if p.startswith(target_rel + "/") and S1[p][0] != "d")
             else:
                 data = sorted(members or [])
             if data:
                 mm("export_partial_after_raise", f"export raised {_exc(exp_exc)} but the target already holds job data: {data[:4]}")
-            if own_valid:
+            if own_valid and not preexport:
                 mm("export_unexpected_exception", f"export with a unique, prefix-free path map raised {_exc(exp_exc)} (path={_short(pspec, 80)}, target={tkind})")
 
         # -- IMPORT ---------------------------------------------------------
@@ -1080,6 +1097,7 @@ def roundtrip_cases(draw):
         "kind": "roundtrip", "jobs": jobs, "target": draw(_targets), "path": path,
         "schema": {"kind": schema}, "dest": "empty" if friendly else draw(_dests), "collide_idx": draw(st.integers(0, 5)),
         "copytree": draw(st.sampled_from([None, None, "exdev"])),
+        "preexport": draw(st.integers(0, 4)) == 0,
     }
 
 
@@ -1145,6 +1163,10 @@ def representatives():
         out.append(_rt(a(ABS_PLACEHOLDER, 1), t))
         out.append(_rt(a(ABS_PLACEHOLDER, 1), t, fmt("{a}")))
     out.append(_rt([{"a": 1}, {"a": 2, "b": 3}, {"b": 5}], "tar.gz", {"kind": "false"}, files=F))
+    # the target directory already holds an earlier export of the (then slightly different) source
+    out.append(dict(_rt(a(1, 2, 3), "dir", files=F, doc=D), preexport=True, collide_idx=1))
+    out.append(dict(_rt(a(1, 2), "dir", {"kind": "false"}, files=F), preexport=True))
+    out.append(dict(_rt([{"a": 1, "b": 1}, {"a": 1, "b": 2}], "dir", fmt("{a}/{{auto}}"), files=F), preexport=True))
     out.append(_rt([{"a": 1}, {"a": 1, "b": 2}, {"a": 2, "b": 3}], "dir"))
     out.append(_rt([{"a": 1}, {"a": 2, "b": 3}], "dir"))
     out.append(_rt(a("x/y", "x"), "dir"))
